@@ -109,6 +109,11 @@ func (p *Publish) Unpack(r io.Reader) error {
 			return err
 		}
 	}
+	// A topic name is at least one character long [MQTT-4.7.3-1]; only a v5 Topic Alias can stand in for it.
+	// (An empty name would otherwise be taken as "any topic" by the subscription store.)
+	if len(p.TopicName) == 0 && (p.Version != Version5 || p.Properties.TopicAlias == nil) {
+		return codes.ErrProtocol
+	}
 	p.Payload = bufr.Next(bufr.Len())
 	return nil
 }
